@@ -67,6 +67,10 @@ def run(run):
                     if fn in files:
                         continue
                     files[fn] = rand_text(rng) if rng.random() < 0.8 else "/**\n * @id x\n */\nFROM method_declaration AS md\nSELECT md.getName(), \"<&>\"\n"
+                # always: one file per look-alike of the extension (other case, a suffix after it, a name that is only the extension)
+                for j, look in enumerate(["SECOND.CQL", "x.Cql", "old.cql.bak", "notes.cqlx", ".cql", "cql", "dir.cql.d"]):
+                    if (case + j) % 2 == 0 and look not in files:
+                        files[look] = "look-alike %d of case %d" % (j, case)
                 # equal contents under different names (a rule copied under a second name, two empty files): the
                 # property speaks of the *multiset* of rule texts
                 if case % 2 == 0:
